@@ -6,9 +6,11 @@
 (*                        LoopBegin / RunContinue / RunOutcome / DelayElapsed *)
 (*                        Finish = the try/except of _run_loop (restart policy*)
 (*                        n_restarts < _restart_limit, RESTART_DELAY = 2 s)   *)
-(*   _background_service  CallCancel, CallStop (= cancel + wait), CallWait,   *)
-(*                        CallRound = one wake-up of `while self._tasks:      *)
-(*                        done, _ = await asyncio.wait(self._tasks) ...`      *)
+(*   _background_service  CallCancel, CallStop (= _wait(cancel=True)),        *)
+(*                        CallWait (= _wait(cancel=False)), CallRound = one   *)
+(*                        wake-up of `while self._tasks: [self.cancel();]     *)
+(*                        done, _ = await asyncio.wait(self._tasks); collect` *)
+(*                        -- the errors are raised once _tasks is empty       *)
 (*   _run_utils.py        CallRun (start every actor that is not running,     *)
 (*                        one wait() task per actor), RWaitBegin, RunReturn   *)
 (*   asyncio              CancelDelivered: a requested cancellation reaches   *)
@@ -32,7 +34,8 @@ CONSTANTS NA,            \* number of actors (1; 2 for run(a1, a2))
           MaxRuns,       \* bound on _run invocations per actor (generation bound)
           CancelModes,   \* what _run may do with a CancelledError: subset of {"prop","exc","ret"}
           XCancelModes,  \* the same for the extra task
-          Features,      \* subset of {"start","stop","wait","cancel","extra","late","run","fixed"}
+          Features,      \* subset of {"start","stop","wait","cancel","extra","late","run","legacy"}
+                         \* ("legacy": wait() as it was before commit 799638e, design-level witness only)
           MaxDepth,      \* history bound (generation only)
           Mode           \* "mc" | "gen" | "sim" | "trace"
 
@@ -239,31 +242,34 @@ CallWait(a) ==
                                           ELSE [NoCall EXCEPT !.st = "waiting", !.on = owned[a]]]
     /\ UNCHANGED <<limit, loop, extra, owned, nRestarts, nRuns, totRuns, inRun, delayLeft, lastOut, excSince, runc>>
 
-\* DEVIATION (KF-C10-1): wait() raises the errors of the batch it awaited from INSIDE its
-\* `while self._tasks` loop, so tasks added to _tasks after the batch was taken are neither
-\* awaited nor (for stop()) cancelled; with stop() the batch always holds a CancelledError.
+\* Named cause predicate of the defect repaired in 799638e (formerly KF-C10-1..3): wait() raised
+\* the errors of the batch it had awaited from INSIDE its `while self._tasks` loop, so tasks added
+\* to _tasks after the batch was taken were neither awaited nor (for stop()) cancelled; with stop()
+\* the batch always holds a CancelledError.  It is false on every returning step of the current
+\* design; if the old behaviour comes back the failing records carry this name.
 Dev_LateTaskAbandoned(a, c) ==
     /\ calls[a][c].st = "waiting" /\ BatchDone(a, c) /\ ~calls[a][c].stale
     /\ Errs(a, c) # {}
     /\ Remaining(a, c) # {}
 
-\* one wake-up of wait(): _tasks -= done; raise the group if a done task had an exception;
-\* return if nothing is left; otherwise await the tasks that were added meanwhile.
-\* fixed = the behaviour WITHOUT the deviation (feature "fixed": design-level check of the repair;
-\* also tolerated by the trace specification): the errors are kept, the tasks added meanwhile are
-\* awaited (and cancelled again by stop()) and everything is raised when _tasks is empty.
-CallRound(a, c, fixed) ==
+\* one wake-up of _wait(): _tasks -= done; the errors of the done tasks are kept (ferrs); when
+\* nothing is left the call returns and raises them all; otherwise it goes on to await the tasks
+\* that were added meanwhile, stop() cancelling them first.
+\* legacy = TRUE is the behaviour before 799638e: return as soon as the awaited batch holds an
+\* error or a cancellation, never cancel again.
+CallRound(a, c, legacy) ==
     /\ calls[a][c].st = "waiting" /\ BatchDone(a, c)
     /\ owned' = [owned EXCEPT ![a] = Remaining(a, c)]
-    /\ IF Remaining(a, c) = {} \/ (Errs(a, c) # {} /\ ~fixed)
+    /\ IF Remaining(a, c) = {} \/ (Errs(a, c) # {} /\ legacy)
        THEN /\ calls' = [calls EXCEPT ![a][c] = [@ EXCEPT !.st = "returned", !.on = {}, !.ferrs = {}, !.res = Surfaced(c, Errs(a, c)),
                                                           !.dev = Dev_LateTaskAbandoned(a, c)]]
             /\ UNCHANGED <<loop, extra>>
        ELSE /\ calls' = [calls EXCEPT ![a][c].on = Remaining(a, c), ![a][c].ferrs = Errs(a, c)]
-            /\ IF fixed /\ c = "stop" THEN CancelAll(a) ELSE UNCHANGED <<loop, extra>>
+            /\ IF ~legacy /\ c = "stop" THEN CancelAll(a) ELSE UNCHANGED <<loop, extra>>
     /\ UNCHANGED <<limit, nRestarts, nRuns, totRuns, inRun, delayLeft, lastOut, excSince, runc>>
 
-Returns(a, c) == calls[a][c].st = "waiting" /\ BatchDone(a, c) /\ (Errs(a, c) # {} \/ Remaining(a, c) = {})
+\* the call returns at this wake-up (current design: nothing left; legacy: or the batch failed)
+Returns(a, c, legacy) == calls[a][c].st = "waiting" /\ BatchDone(a, c) /\ (Remaining(a, c) = {} \/ (Errs(a, c) # {} /\ legacy))
 
 ----------------------------------------------------------------------------
 (* run(actors...) *)
@@ -329,7 +335,7 @@ CancelExtraA(a) == \E m \in {"prop", "exc", "ret"} : CancelExtra(a, m) /\ Log(Re
 CancelExtraStep == Gen /\ (\E a \in Actors : CancelExtraA(a)) /\ EmitRule
 CallStopStep == Gen /\ Has("stop") /\ (\E a \in Actors : CallStop(a) /\ Log(Rec("stop", a, ""))) /\ EmitRule
 CallWaitStep == Gen /\ Has("wait") /\ (\E a \in Actors : CallWait(a) /\ Log(Rec("wait", a, ""))) /\ EmitRule
-RoundA(a, c) == CallRound(a, c, Has("fixed")) /\ Log(Rec("int", a, ""))
+RoundA(a, c) == CallRound(a, c, Has("legacy")) /\ Log(Rec("int", a, ""))
 StopRoundStep == Gen /\ (\E a \in Actors : RoundA(a, "stop")) /\ EmitRule
 WaitRoundStep == Gen /\ (\E a \in Actors : RoundA(a, "wait")) /\ EmitRule
 CallRunStep == Gen /\ Has("run") /\ (\A a \in Actors : IsRunning(a) \/ totRuns[a] < MaxRuns) /\ CallRun /\ Log(Rec("run", 0, "")) /\ EmitRule
@@ -416,10 +422,11 @@ StopCancelsEverything ==
 
 StopReturned(a) == calls[a].stop.st = "waiting" /\ calls'[a].stop.st = "returned"
 StopReturnsOnlyWhenAllDone ==
-    [][\A a \in Actors : StopReturned(a) => (~IsRunning(a)' \/ calls[a].stop.stale \/ Dev_LateTaskAbandoned(a, "stop"))]_vars
-\* without the deviation (expected to be violated when "late" is enabled: KF-C10-1 at design level)
-StopReturnsOnlyWhenAllDoneStrict ==
     [][\A a \in Actors : StopReturned(a) => (~IsRunning(a)' \/ calls[a].stop.stale)]_vars
+\* design-level witness of the repaired defect: with feature "legacy" (and "late") TLC violates
+\* StopReturnsOnlyWhenAllDone, and the cause predicate holds on that step
+LegacyViolationHasCause ==
+    [][\A a \in Actors : (StopReturned(a) /\ IsRunning(a)' /\ ~calls[a].stop.stale) => Dev_LateTaskAbandoned(a, "stop")]_vars
 
 \* a task leaves _tasks through stop()/wait() only with its non-cancellation error raised by that call;
 \* a returning stop()/wait() raises the errors of every finished task of the service; stop() never
@@ -434,12 +441,12 @@ StopSurfacesErrors ==
                                              \/ calls'[a][c].st = "waiting" /\ errs \subseteq calls'[a][c].ferrs
               /\ \A c \in {"stop", "wait"} : (calls[a][c].st = "waiting" /\ calls'[a][c].st = "returned") =>
                      \/ {ErrName(t, KindOf(a, t)) : t \in {u \in owned[a] : KindOf(a, u) \in {"exc", "base"}}} \subseteq calls'[a][c].res
-                     \/ calls[a][c].stale \/ Dev_LateTaskAbandoned(a, c)
+                     \/ calls[a][c].stale
               /\ "cancelled" \notin calls'[a].stop.res]_vars
 
 \* run() returns only when no actor is running, and (RunReturnsWhenAllFinished, liveness) it does return then
 RunReturnsIffAllFinished ==
-    [][(runc = "waiting" /\ runc' = "returned") => \A a \in Actors : ~IsRunning(a)' \/ calls[a].rwait.dev \/ calls[a].rwait.stale]_vars
+    [][(runc = "waiting" /\ runc' = "returned") => \A a \in Actors : ~IsRunning(a)' \/ calls[a].rwait.stale]_vars
 RunReturnsWhenAllFinished == (runc = "waiting" /\ \A a \in Actors : ~IsRunning(a)) ~> (runc = "returned")
 
 \* liveness under weak fairness of the task steps (checked with cancellation propagated)
